@@ -103,8 +103,11 @@ def gen_events(rng, limits="default", closed=False, min_states=1, max_states=5, 
             p = rng.choice(params)
             form = rng.choice(["decay", "in", "out", "in", "out"])
             odes.append([s_, {"decay": "-%s*%s" % (p, s_) if s_ in pos else "-%s" % p, "in": "%s" % p, "out": "-%s" % p}[form]])
-    return {"states": states, "state_decl": decl, "params": params, "param_decl": "list", "derived": [],
-            "events": events, "odes": odes, "limits": lims}
+    out = {"states": states, "state_decl": decl, "params": params, "param_decl": "list", "derived": [],
+           "events": events, "odes": odes, "limits": lims}
+    if decl == "limits" and rng.random() < 0.3:
+        out["limit_number_type"] = rng.choice(["np.int64", "np.int64", "np.float64", "float"])
+    return out
 
 
 def initial_state(rng, spec, lo=0, hi=30, boundary_prob=0.2, huge_prob=0.06):
